@@ -41,5 +41,35 @@ impl VecFeltX for Vec<Felt> {
     { unimplemented!() }
 }
 
+
+// ---- Vec::extend (N3 wrapper): appends the elements of the argument in order ---------------------------
+pub trait ExtendX<A> { fn extend_x(&mut self, a: A); }
+impl<'a> ExtendX<&'a [u8; 32]> for Vec<u8> {
+    #[verifier::external_body]
+    fn extend_x(&mut self, a: &'a [u8; 32]) ensures final(self)@ == old(self)@ + a@ { unimplemented!() }
+}
+impl<'a> ExtendX<&'a [Felt]> for Vec<Felt> {
+    #[verifier::external_body]
+    fn extend_x(&mut self, a: &'a [Felt]) ensures final(self)@ == old(self)@ + a@ { unimplemented!() }
+}
+
+
+// ---- v.into_iter().map(f).collect::<Vec<_>>() --------------------------------------------------------------
+#[verifier::external_body]
+pub fn vec_map<F: Fn(Felt) -> Felt>(v: Vec<Felt>, f: F) -> (r: Vec<Felt>)
+    requires forall|i: int| 0 <= i < v@.len() ==> call_requires(f, (#[trigger] v@[i],)),
+    ensures r@.len() == v@.len(), forall|i: int| 0 <= i < v@.len() ==> call_ensures(f, (v@[i],), #[trigger] r@[i]),
+{ unimplemented!() }
+
+// ---- data.extend(slice.iter().flat_map(|x| x.to_bytes_be().to_vec())) ------------------------------------
+/// concatenation of the 32-byte big-endian encodings
+pub open spec fn concat_be32(s: Seq<nat>) -> Seq<u8> decreases s.len() {
+    if s.len() == 0 { Seq::<u8>::empty() } else { concat_be32(s.drop_last()) + be32(s.last()) }
+}
+#[verifier::external_body]
+pub fn extend_be_bytes(data: &mut Vec<u8>, slice: &[Felt])
+    ensures final(data)@ == old(data)@ + concat_be32(fv(slice@)),
+{ unimplemented!() }
+
 } // verus!
 } // mod hoist
